@@ -10,8 +10,8 @@ CHECKS = {
     "C01": dict(
         level="exploration",
         technique=KTECH,
-        text="For each configuration (data set of 1-3 points, thorough 4; alpha; 3 proposals; N; threshold; outlier probability; run-command wiring and library wiring) every outcome of every draw of ParticleGibbsTreeSampler.sample_tree is traversed on the real code from every start tree, giving the exact kernel K; rows must sum to 1, stay in the state space, and max|pi K - pi| <= 1e-9 with pi = exp(log_p_one). Exact per configuration (residuals where it holds are ~1e-16, defects found were 1e-5..5e-2); configurations are a fixed cross plus seeded random ones, so this is exploration, not proof.",
-        note="pi is built from the code's own log_p_one (C03 judges that value). Trusts the simulated generator's outcome probabilities (self-tested) and leaf purity (all memo caches cleared per leaf). Sizes beyond n=4 / N=4 are not traversed.",
+        text="For each configuration (data set of 1-3 points, plus four exchangeable points traversed through one start state per orbit of the symmetric group (24 of 243 states); alpha; 3 proposals; N; threshold; outlier probability; run-command wiring and library wiring) every outcome of every draw of ParticleGibbsTreeSampler.sample_tree is traversed on the real code from every start tree, giving the exact kernel K; rows must sum to 1, stay in the state space, and max|pi K - pi| <= 1e-9 with pi = exp(log_p_one). Exact per configuration (residuals where it holds are ~1e-16, defects found were 1e-5..5e-2); configurations are a fixed cross plus seeded random ones, so this is exploration, not proof.",
+        note="pi is built from the code's own log_p_one (C03 judges that value). Trusts the simulated generator's outcome probabilities (self-tested) and leaf purity (all memo caches cleared per leaf). Sizes beyond n=4 / N=4 are not traversed exactly; sampled paths with n=4..7, N<=10 carry path-local oracles only (retained particle in slot 0, swarm size, finite weights, result in support).",
         ref="4 (C01)"),
     "C04": dict(
         level="exploration",
@@ -92,7 +92,7 @@ CHECKS.update({
     "C12": dict(
         level="exploration",
         technique=PIPE + "; traces also assembled synthetically from real Tree objects (input generation, labelled)",
-        text="On the same traces every (table, Newick) pair written by map, consensus and inside the topology archive must list each input mutation once per sample, use clone ids that are Newick nodes or -1, keep clusters together, report ccf / clonal prevalence constant per clone and sample within [0,1] and -1 exactly for outliers; all commands must complete for every tree form (all-outlier, single clone, clones plus outliers, clustered, consensus with empty clones).",
+        text="On the same traces every (table, Newick) pair written by map, consensus and inside the topology archive must list each input mutation once per sample, use clone ids that are Newick nodes or -1, keep clusters together, report ccf / clonal prevalence constant per clone and sample within [0,1] and -1 exactly for outliers, be feasible on the written tree and attain per sample the same total log-likelihood as the repository's MAP-CCF routine on a tree of that form; all commands must complete for every tree form (all-outlier, single clone, clones plus outliers, clustered, consensus with empty clones).",
         note="Optimality of the CCF values is C10 and not checked.",
         ref="4 (C12)"),
     "C14": dict(
@@ -110,14 +110,14 @@ CHECKS.update({
     "C18": dict(
         level="exploration",
         technique=PIPE + "; perturbed chain schedules, simulated worker reuse, and re-execution in fresh interpreters under other PYTHONHASHSEED values",
-        text="For 24 (thorough 400) seeded option sets a canonical execution gives reference per-chain traces; 5 perturbed schedules (start / finish order, all chains on one worker with warm caches, seeded assignment) and 2 (4) other hash seeds in fresh interpreters must reproduce per chain the same sequence of trees, labels, alpha, iter and log_p_one (1e-9). Thorough tier also observes the real spawn pool under two hash seeds with and without CPU pinning.",
-        note="Chains run in-process under the simulated executor (pickled arguments, fresh or warm memo caches); interpreter start-up of spawn workers is observed only in the thorough tier.",
+        text="For 24 (thorough 400) seeded option sets a canonical execution gives reference per-chain traces; 7 perturbed schedules (start / finish order, all chains inside one forked worker, the OS reporting 1 or 2 cores, seeded assignment) and 2 (4) other hash seeds in fresh interpreters must reproduce per chain the same sequence of trees, labels, alpha, iter and log_p_one (1e-9). Thorough tier also observes the real spawn pool under two hash seeds with and without CPU pinning.",
+        note="One simulated worker is one forked child of the warm simulator (chains on the same worker share its module state); interpreter start-up of spawn workers is observed only in the thorough tier.",
         ref="4 (C18)"),
     "C20": dict(
         level="fault_enumeration",
         technique="deterministic simulation with storage faults: the gzip file behind the trace writer/readers is a simulated disk; every truncation / kill / ENOSPC offset of the single write is enumerated and fed to the three readers",
-        text="For 3 (thorough 40) simulated runs every prefix length of the trace image is read by map, consensus and topology-report: each call must raise or give outputs identical to the complete trace's (about 20 000 reader calls per quick run; only the last ~10 trailer bytes may be missing). The writer itself is cut by ENOSPC and by process death at all offsets near both ends and on a grid: it must not report success. A dying chain worker must make run fail without a readable trace.",
-        note="Exhaustive over crash points per trace; traces are seeded samples. Debris left by a failing command is not flagged.",
+        text="For 3 (thorough 80) simulated runs, one of them long enough to span several blocks of any chunked format, every prefix length of the trace image is read by map, consensus and topology-report: each call must raise or give outputs identical to the complete trace's (about 20 000 reader calls per quick run; only the last ~10 trailer bytes may be missing). The writer itself is cut by ENOSPC and by process death at all offsets near both ends and on a grid: it must not report success. A dying chain worker must make run fail without a readable trace.",
+        note="Exhaustive over crash points per trace; traces are seeded samples. Readers get a real file holding exactly the prefix; the writer's file is simulated at two seams (gzip by path, module-level open); a writer that goes around both is still read back from the real disk, but no write fault can then be injected (recorded as a probe). Debris left by a failing command is not flagged.",
         ref="4 (C20)"),
 })
 
